@@ -13,7 +13,12 @@ import (
 	"time"
 
 	"github.com/markkurossi/mpc/circuit"
+	"github.com/markkurossi/mpc/compiler"
+	"github.com/markkurossi/mpc/compiler/utils"
+	"github.com/markkurossi/mpc/env"
 	"github.com/markkurossi/mpc/ot"
+	"github.com/markkurossi/mpc/p2p"
+	"sync/atomic"
 )
 
 func init() { register("c16", runC16) }
@@ -90,7 +95,7 @@ func runC16(c *Ctx) error {
 	if err != nil {
 		return err
 	}
-	for ci := 0; ci < ncirc; ci++ {
+	for ci := 0; ci <= ncirc; ci++ { // ci == ncirc: the streaming session
 		start := 0
 		for restarts := 0; restarts < 400; restarts++ {
 			// address-space limit: a corrupted count that asks for gigabytes kills the
@@ -194,6 +199,9 @@ func c16Child(c *Ctx) error {
 	startAt, _ := strconv.Atoi(os.Getenv("C16_START"))
 	w := bufio.NewWriter(os.Stdout)
 	defer w.Flush()
+	if want_ci == ncirc {
+		return c16StreamChild(c, w, startAt)
+	}
 	for ci := 0; ci < ncirc; ci++ {
 		r := c.rng.Fork()
 		if ci != want_ci {
@@ -371,5 +379,164 @@ func c16Child(c *Ctx) error {
 	}
 	fmt.Fprintln(w, "DONE")
 	_ = big.NewInt
+	return nil
+}
+
+// ---- streaming session behind the corrupting transport (oracle only): the
+// streaming garbler's result loop is the same per-label decode.
+const c16StreamProgram = "package main\nfunc main(a, b uint8) (uint8, bool) {\n\ts := a + b\n\treturn s ^ (a & b), s < a\n}\n"
+
+func c16RunStream(seed uint64, av, bv int, f *fault) (gRes []*big.Int, gErr error, stalled bool, lg, le int) {
+	sr := NewRNG(seed)
+	ga, ea, g2e, e2g := newDuplexPair(sr, 0)
+	if f != nil {
+		f.apply(g2e, e2g)
+	}
+	gConn := p2p.NewConn(ga)
+	eConn := p2p.NewConn(ea)
+	params := utils.NewParams()
+	defer params.Close()
+	params.Config = &env.Config{Rand: sr.Fork()}
+	type out struct {
+		vals []*big.Int
+		err  error
+	}
+	gch := make(chan out, 1)
+	ech := make(chan out, 1)
+	var gDone, eDone atomic.Bool
+	go func() {
+		defer func() {
+			if p := recover(); p != nil {
+				gDone.Store(true)
+				gch <- out{nil, fmt.Errorf("panic: %v", p)}
+			}
+		}()
+		_, vals, err := compiler.New(params).Stream(gConn, ot.NewCO(sr.Fork()), "c16", strings.NewReader(c16StreamProgram),
+			[]string{fmt.Sprint(av)}, nil)
+		gDone.Store(true)
+		gch <- out{vals, err}
+	}()
+	go func() {
+		defer func() {
+			if p := recover(); p != nil {
+				eDone.Store(true)
+				ech <- out{nil, fmt.Errorf("panic: %v", p)}
+			}
+		}()
+		_, vals, err := circuit.StreamEvaluator(eConn, ot.NewCO(sr.Fork()), []string{fmt.Sprint(bv)}, nil, false)
+		eDone.Store(true)
+		ech <- out{vals, err}
+	}()
+	var gout *out
+	deadline := time.Now().Add(10 * time.Second)
+	idle := 0
+	for gout == nil {
+		select {
+		case o := <-gch:
+			gout = &o
+		case <-time.After(2 * time.Millisecond):
+		}
+		if gout != nil {
+			break
+		}
+		if (gDone.Load() || e2g.idle()) && (eDone.Load() || g2e.idle()) {
+			idle++
+		} else {
+			idle = 0
+		}
+		if idle >= 30 || time.Now().After(deadline) {
+			stalled = true
+			break
+		}
+	}
+	ga.Close()
+	ea.Close()
+	go gConn.Close()
+	go eConn.Close()
+	if gout == nil {
+		select {
+		case o := <-gch:
+			gout = &o
+		case <-time.After(2 * time.Second):
+			return nil, fmt.Errorf("garbler did not return after abort"), true, 0, 0
+		}
+	}
+	g2e.mu.Lock()
+	lg = len(g2e.log)
+	g2e.mu.Unlock()
+	e2g.mu.Lock()
+	le = len(e2g.log)
+	e2g.mu.Unlock()
+	return gout.vals, gout.err, stalled, lg, le
+}
+
+func c16StreamChild(c *Ctx, w *bufio.Writer, startAt int) error {
+	r := c.rng.Fork()
+	av, bv := r.Intn(256), r.Intn(256)
+	seed := r.U64()
+	s := (av + bv) & 0xff
+	want := []*big.Int{big.NewInt(int64(s ^ (av & bv))), big.NewInt(0)}
+	if s < av {
+		want[1] = big.NewInt(1)
+	}
+	res, err, stalled, lg, le := c16RunStream(seed, av, bv, nil)
+	if err != nil || stalled || bigsString(res) != bigsString(want) {
+		fmt.Fprintf(w, "BASEFAIL streaming baseline: %v %v %s want %s\n", err, stalled, bigsString(res), bigsString(want))
+		return nil
+	}
+	no := 9
+	tail := le - 16*no
+	var faults []fault
+	stepG := lg/c.N(120, 3000) + 1
+	for off := 0; off < lg; off += stepG {
+		faults = append(faults, fault{dir: "g2e", off: off, kind: "flip", mask: 1 << uint(off%8)})
+	}
+	stepE := (le-16*no)/c.N(40, 1000) + 1
+	for off := 0; off < tail-4; off += stepE {
+		faults = append(faults, fault{dir: "e2g", off: off, kind: "flip", mask: 1 << uint(off%8)})
+	}
+	for off := tail - 4; off < le; off++ {
+		if off >= 0 {
+			faults = append(faults, fault{dir: "e2g", off: off, kind: "flip", mask: 1 << uint(off%8)})
+		}
+	}
+	for i := 0; i < no; i++ {
+		for j := i + 1; j < no; j++ {
+			for _, m := range []byte{0x80, 0xff} {
+				faults = append(faults, fault{dir: "e2g", off: tail + 16*i, off2: tail + 16*j, kind: "pair", mask: m})
+			}
+		}
+	}
+	for _, cnt := range []int{32, 64} {
+		for off := tail; off+cnt <= le; off += 16 {
+			faults = append(faults, fault{dir: "e2g", off: off, kind: "burstff", mask: 0xff, count: cnt})
+		}
+	}
+	for fi, f := range faults {
+		if fi < startAt {
+			continue
+		}
+		f := f
+		fmt.Fprintf(w, "BEGIN %d stream:%s:%d:%s\n", fi, f.dir, f.off, f.kind)
+		w.Flush()
+		rec := c16Rec{Fi: fi, Dir: "stream-" + f.dir, Kind: f.kind, Off: f.off, Circuit: "streaming: " + c16StreamProgram}
+		gres, gerr, st, _, _ := c16RunStream(seed, av, bv, &f)
+		switch {
+		case gerr == nil && gres != nil && !st:
+			rec.Outcome = "result"
+			if bigsString(gres) != bigsString(want) {
+				rec.Wrong = &c16Replay{Seed: c.Seed, Circuit: "streaming: " + c16StreamProgram, OT: "co", X: fmt.Sprint(av), Y: fmt.Sprint(bv),
+					Dir: f.dir, Offset: f.off, Kind: f.kind, Mask: int(f.mask), Got: bigsString(gres), Want: bigsString(want)}
+			}
+		case st && gerr == nil:
+			rec.Outcome = "stalled"
+		default:
+			rec.Outcome = "error"
+		}
+		b, _ := json.Marshal(rec)
+		fmt.Fprintf(w, "END %s\n", b)
+		w.Flush()
+	}
+	fmt.Fprintln(w, "DONE")
 	return nil
 }
